@@ -1206,11 +1206,11 @@ class ComplexGammatoneFilterBank(LinearFilterBank):
                 return v
 
             right = (n - 1 + np.sqrt((n - 1) / 2)) / alpha
-            h_0 = np.abs(self._h(right, idx))
+            h_0 = np.abs(self._h(right + offset, idx))
             while h_0 > eps:
                 d_0 = _d(right)
                 right -= h_0 / d_0
-                h_0 = np.abs(self._h(right, idx))
+                h_0 = np.abs(self._h(right + offset, idx))
         return (int(np.floor(offset)), int(np.ceil(right) + offset))
 
 
